@@ -271,6 +271,9 @@ func init() {
 			{Pkg: pkgRunner, Func: "VerifC12Cancel", Args: []int64{2, 1, 3}, Timeout: 30 * time.Minute, MaxSteps: 2000000000},
 			{Pkg: pkgRunner, Func: "VerifC12Cancel", Args: []int64{2, 2, 2}, Timeout: 30 * time.Minute, MaxSteps: 2000000000},
 			{Pkg: pkgRunner, Func: "VerifC12Cancel", Args: []int64{3, 1, 1}, Timeout: 30 * time.Minute, MaxSteps: 2000000000},
+			// two threads cancelling concurrently while a run winds down through its context's after command
+			{Pkg: pkgRunner, Func: "VerifC12Cancel", Args: []int64{1, 1, 4, 2, 1}, Timeout: 30 * time.Minute, MaxSteps: 2000000000},
+			{Pkg: pkgRunner, Func: "VerifC12Cancel", Args: []int64{2, 1, 2, 2, 1}, Timeout: 30 * time.Minute, MaxSteps: 2000000000},
 		}
 		if tier == "thorough" {
 			js = append(js, &Job{Pkg: pkgRunner, Func: "VerifC12Cancel", Args: []int64{2, 1, 4}, Timeout: 60 * time.Minute, MaxSteps: 20000000000},
@@ -281,7 +284,7 @@ func init() {
 	register(&PropSpec{ID: "C12", Jobs: c12jobs,
 		Covers: []string{"C12.all-threads-returned", "C12.a-command-was-interrupted"},
 		Bounds: map[string]interface{}{
-			"quick":    "0, 1 (preemption-unbounded), 2 (preemption bound 3) and 3 (bound 1) concurrent TaskRunner.Run calls (1-2 commands, one with a before hook) + one thread calling Cancel once or twice; every interleaving at visible operations (RWMutex, channel close/receive, context cancel, command start/finish); command outcomes symbolic",
+			"quick":    "0, 1 (preemption-unbounded), 2 (preemption bound 3) and 3 (bound 1) concurrent TaskRunner.Run calls (1-2 commands, one with a before hook) + one thread calling Cancel once or twice, and two threads calling Cancel concurrently while the run(s) wind down through an execution context's after command; every interleaving at visible operations (RWMutex, channel close/receive, context cancel, command start/finish); command outcomes symbolic",
 			"thorough": "2 runs with preemption bound 4, 3 runs with bound 2",
 		},
 		Outside:     []string{"that the interpreter stops a running command when its context is cancelled (mvdan DefaultExecHandler + the OS): assumed by the executor stub", "'within bounded time' is checked as absence of deadlock/livelock", "cancellation through the Scheduler (stage-condition error, Scheduler.Cancel): not yet a separate harness", "more than 3 concurrent runs"},
@@ -451,4 +454,27 @@ func init() {
 		Outside:     []string{"panics, hangs or errors INSIDE yaml.v2, go-toml, encoding/json, mapstructure, mergo, text/template: not encodable; arbitrary bytes, truncation, anchors, invalid UTF-8 are therefore outside", "the list / show / graph / validate commands on the loaded configuration", "bounded time (the import closure's termination is C17)"},
 		Assumptions: []string{"stubs: file system, Loader.readFile (returns the decoded shape), mergo.Merge, watch.NewWatcher, utils.ReadEnvFile (for (ii)), os.Open and bufio.Scanner (for (iii): the scanner yields the given lines)"},
 		Replay:      map[string]*ReplaySpec{"*": {PkgDir: "internal/config", File: "C15_replay_test.go", Test: "TestVerifReplayC15"}}})
+
+	register(&PropSpec{ID: "C20",
+		Jobs: func(tier string) []*Job {
+			js := []*Job{
+				{Pkg: pkgWatch, Func: "VerifC20Paths", Args: []int64{1, 1}, Timeout: 10 * time.Minute},
+				{Pkg: pkgWatch, Func: "VerifC20Paths", Args: []int64{2, 2}, Timeout: 10 * time.Minute},
+				{Pkg: pkgWatch, Func: "VerifC20Paths", Args: []int64{2, 0}, Timeout: 10 * time.Minute},
+				{Pkg: pkgWatch, Func: "VerifC20Events", Args: []int64{1}, Timeout: 10 * time.Minute},
+				{Pkg: pkgWatch, Func: "VerifC20Events", Args: []int64{2}, Timeout: 10 * time.Minute},
+			}
+			if tier == "thorough" {
+				js = append(js, &Job{Pkg: pkgWatch, Func: "VerifC20Events", Args: []int64{3}, Timeout: 30 * time.Minute})
+			}
+			return js
+		},
+		Covers: []string{"C20.paths-checked", "C20.some-path-observed", "C20.handler-returned", "C20.unsubscribed-event"},
+		Bounds: map[string]interface{}{
+			"quick":    "selection: up to 2 include and 2 exclude patterns over 3 candidate paths with the whole pattern x path match relation symbolic (512 relations per shape, decided per path by the solver); events: every subset of the five event names subscribed (none = all), 1..2 events of symbolic type handled by the real handler with the real TaskRunner (executor stubbed)",
+			"thorough": "3 events",
+		},
+		Outside:     []string{"doublestar's pattern semantics and the file-system walk (Glob / PathMatch are replaced by the symbolic relation)", "fsnotify / inotify delivery, combined Op bit-masks, the polling loop of Watcher.Run and Close", "while the open finding exists, what a subscribed event's task execution sees (EventName / EventPath) cannot be observed"},
+		Assumptions: []string{"stubs: doublestar.Glob / PathMatch, fsnotify.NewWatcher, executor"},
+		Replay:      map[string]*ReplaySpec{"*": {PkgDir: "internal/watch", File: "C20_replay_test.go", Test: "TestVerifReplayC20"}}})
 }
